@@ -332,6 +332,26 @@ def _same_mdp(case, label, m1, m2, ValueIteration, sp):
         p1 = np.array([[r1.policy[s][a] for a in m1.action_list] for s in m1.state_list])
         p2 = np.array([[r2.policy[s][a] for a in m1.action_list] for s in m1.state_list])
         case.check(np.array_equal(p1, p2), f"{label}:planned-policy-differs", "")
+        if sp.gamma < 1.0 and all(v_ <= 0 for v_ in sp.R.values()):
+            # ... and a planner that walks the FUNCTIONS (next_state_dist / actions / reward), not the arrays (zero heuristic,
+            # admissible for costs): it must run on the rebuilt model too and, where both runs converge, report the same value
+            # (the ORDER in which successors are listed may differ between the two, so only converged values are compared)
+            from msdm.algorithms import LAOStar
+            try:
+                q1 = LAOStar(heuristic=lambda s: 0.0, seed=0, max_lao_star_iterations=60).plan_on(m1)
+            except BaseException as e_:
+                if type(e_).__name__ == "CaseTimeout" or isinstance(e_, (KeyboardInterrupt, SystemExit)):
+                    raise
+                q1 = None
+            if q1 is not None:
+                q2 = case.call(f"LAOStar.plan_on({label})", LAOStar(heuristic=lambda s: 0.0, seed=0, max_lao_star_iterations=60).plan_on, m2)
+                case.count("function_walking_planner_comparisons")
+                if q2 is not case.FAIL:
+                    same_ = (not (q1.converged and q2.converged)) or abs(q1.initial_value - q2.initial_value) <= 1e-6 * max(1.0, abs(q1.initial_value))
+                    listed_ = set(m1.state_list)
+                    same_ = same_ and all(s_ in listed_ for s_ in q2.state_value_map)
+                    case.check(same_, f"{label}:planning-results-differ",
+                               lambda: f"LAO*: {len(q1.state_value_map)} vs {len(q2.state_value_map)} states valued, initial value {q1.initial_value!r} vs {q2.initial_value!r}")
 
 
 def _closure_expand_initial_absorbing(sp):
